@@ -44,6 +44,12 @@ CLAIMED = {
                 text='Frame conditions of GenericBuilder::set_claim / remove_claim on an arbitrary claims map (claims[k]=v, last wins, others untouched), build_payload_from_claims yields exactly the stored members, wrap_value(v)=v by an inductive step over the JSON structure, the seven typed claim constructors land under their registered keys, and for all 8 protocols parse(build(claims)) returns an object whose members are the stored claims.'),
     'C18': dict(engine=E2, cat=MC, ref='DESIGN.md 6 (C18)', technique=TECH + '; Kani 0.68 leaf harness over all UTF-8 keys of <= 4 bytes', note='Trusted: MIR dump; SMT strings; iso8601::datetime uninterpreted (its acceptance set is the iso8601 crate\'s contract).',
                 text='The three CustomClaim::try_from bodies on an arbitrary string key: Err(Reserved) iff the key is exactly one of the seven registered names, key stored verbatim; the six time-claim constructors accept exactly when iso8601::datetime accepts the caller\'s own text and keep it verbatim under exp/nbf/iat; Kani repeats the reserved-key question bit-precisely on the compiled code for every key of 3-4 bytes.'),
+    'C19': dict(engine='typelevel', cat='other', ref='DESIGN.md 5.1', technique='SMT over finite sorts (Version x Purpose x key size) built from rustdoc JSON of the working tree (impl headers, bounds, method signatures); z3 + cvc5; every sat answer is instantiated as a program and compiled with rustc; positive controls compiled',
+                note='Trusted: rustdoc JSON describes the impls the compiler uses; auto-deref / coercions / foreign blanket impls not modelled; rustc is the judge of every proposed program and of the 41 matching (X == Y) control calls.',
+                text='A compile-time property has nothing to execute: the real impl headers, trait bounds and signatures become constraints and one query per entry-point family asks for ANY instantiation in which a key of another version/purpose is accepted, an operation exists on the wrong purpose, set_implicit_assertion exists for V1/V2, a symmetric key with purpose Public or an asymmetric key from a Key<N> of the wrong size is constructible. unsat = no program of the enumerated shapes type-checks, for every instantiation at once; the matching programs must compile (checked with rustc).'),
+    'C20': dict(engine='featuresat+mir2smt', cat='other', ref='DESIGN.md 5.2', technique='propositional SAT over the Cargo feature graph and the cfg presence conditions of src/** (z3), confirmed with cargo check; plus symbolic execution of the MIR re-dumped under each single-protocol feature set (round-trip obligations of C01/C02)',
+                note='Trusted: textual reading of Cargo.toml and cfg attributes; cargo check as judge. NOT claimed: that rustc accepts each of the 765 documented configurations (only the failure mechanisms named in the anchors are decided for all configurations; thorough adds a cargo-check sweep of singletons x layers, all pairs and the full set as confirmation).',
+                text='(A) For all 2^8 x 2^3 documented selections at once: every reference to an optional crate is under a presence condition that implies that crate\'s feature, and no two #[from] variants of one error enum with the same source type are enabled together (the E0119 mechanism). (B) For each of the 8 single-protocol configurations the MIR is dumped under exactly that feature set and the round trip of that protocol is discharged on it (cfg-gated code such as header tables is therefore inside the check).'),
 }
 
 REASON_NOT_YET = 'check under construction in this round - not claimed until its command exists'
@@ -67,8 +73,11 @@ def main():
                   'enable': 'not applicable - /repo is never built with a hook', 'baseline_off_cmd': 'cd /repo && cargo test --workspace --no-fail-fast --offline',
                   'source_commits': [], 'add_only': True},
         'engines': [
-            {'name': 'mir2smt', 'path': 'vf/', 'serves_properties': [p for p in props if CLAIMED.get(p, {}).get('engine') == E2],
-             'kind_free_text': 'symbolic executor for rustc MIR text -> SMT-LIB (Seq/String/Int/UF), decided by cvc5 1.0.3, z3 4.8.12, z3 5.1.0'},
+            {'name': 'mir2smt', 'path': 'vf/', 'serves_properties': [p for p in props if 'mir2smt' in CLAIMED.get(p, {}).get('engine', '')],
+             'kind_free_text': 'symbolic executor for rustc MIR text -> SMT-LIB (Seq/String/Int/UF/datatypes), decided by cvc5 1.0.3, z3 4.8.12, z3 5.1.0; native replay through replay/ (verif-replay)'},
+            {'name': 'kani-leaf', 'path': 'vf/kani.py', 'serves_properties': ['C08', 'C18'], 'kind_free_text': 'Kani 0.68 / CBMC 6.11 harnesses on a scratch overlay of the working tree (le64, CustomClaim constructors)'},
+            {'name': 'typelevel', 'path': 'vf/props/c19.py', 'serves_properties': ['C19'], 'kind_free_text': 'rustdoc JSON impl headers -> SMT over finite sorts; rustc judges proposed programs'},
+            {'name': 'featuresat', 'path': 'vf/props/c20.py', 'serves_properties': ['C20'], 'kind_free_text': 'Cargo feature graph + cfg presence conditions -> SAT; cargo check judges proposed configurations'},
         ],
         'checks': checks,
         'notes': 'Exit codes of ./check: 0 held, 1 VIOLATION (natively reproduced), 2 undecided (unsupported construct, solver unknown, non-reproducing counterexample). Fix commits in /repo are listed in known_findings.txt as fixed: lines.',
